@@ -836,6 +836,8 @@ CHECKS = {
                # windows of 100 .. 43200 refresh periods that live for up to 3x their size: latency package level, and through the cache
                dict(name="latency-long", run="TestC15LatencyLong", checks=dict(quick=600, thorough=6000), shards=dict(quick=1, thorough=8)),
                dict(name="cache-latency-long", run="TestC15CacheLatencyLong", checks=dict(quick=80, thorough=1000), shards=dict(quick=1, thorough=8)),
+               # every target driven by its own goroutine next to dense size / metadata refresh loops; exported counters judged at quiescence; structural deadlock verdict
+               dict(name="owners", run="TestC15Owners", checks=dict(quick=100, thorough=1500), shards=dict(quick=2, thorough=8)),
                dict(name="race", run="TestC15Race", rapid=False, race=True,
                     # several processes: some defects only show in a process's first round (first use of package-level state)
                     args=dict(quick=["-c15.rounds=60"], thorough=["-c15.rounds=1000"]), shards=dict(quick=3, thorough=8))],
